@@ -38,7 +38,8 @@ pub fn run(args: &Args) {
         let res = guard(|| -> Result<Vec<u8>, String> {
             match api {
                 "encrypt" | "set_password" => {
-                    let n = sizes(&mut rng);
+                    // a few packages are larger than 256 segments of 4096 bytes (the segment number no longer fits one byte)
+                    let n = if k % 40 == 7 { 257 * 4096 + 1 + (k as usize % 3) * 4096 } else { sizes(&mut rng) };
                     let data: Vec<u8> = (0..n).map(|_| rng.next() as u8).collect();
                     if api == "encrypt" {
                         helper::crypt::encrypt(&enc_path, &data, &password).map_err(|e| e.to_string())?;
